@@ -257,6 +257,8 @@ def jobs(tier, seed):
           ("h_op", {"op": "bin", "n": 2, "arg": 2, "dtype": "int16", "input_order": "xyz", "output_order": "zyx"}), ("h_op", {"op": "bin", "n": 2, "arg": 3, "dtype": "int16", "input_order": "zyx", "output_order": "zyx", "out_file": True}),
           ("h_op", {"op": "remove", "n": 5, "arg": ([1, 4], True, "txt"), "out_file": True}), ("h_op", {"op": "remove", "n": 4, "arg": ([0, 3], False, "txt"), "dtype": "int16", "input_order": "zyx"}),
           ("h_op", {"op": "remove", "n": 5, "arg": ([2, 3], True, "csv"), "input_order": "zyx", "output_order": "zyx"}),
+          ("h_op", {"op": "flip", "n": 3, "arg": ["x", "x"], "out_file": True}), ("h_op", {"op": "flip", "n": 2, "arg": ["x", "y", "x"], "dtype": "int16", "input_order": "zyx"}),
+          ("h_op", {"op": "flip", "n": 4, "arg": ["z", "y", "z", "y"], "via_file": True, "input_order": "zyx", "output_order": "zyx"}),
           ("h_op", {"op": "split", "n": 7, "dtype": "int16", "out_file": True}), ("h_op", {"op": "split", "n": 3, "via_file": True, "input_order": "zyx"})]
     if tier == "thorough":
         j += [("h_op", {"op": "sort", "n": 4}), ("h_op", {"op": "bin", "n": 2, "arg": 4, "dtype": "int16", "out_file": True}),
